@@ -16,7 +16,7 @@ PROPERTY = "C16"
 
 def generate(seed, tier="quick"):
     rnd = tape.sub(seed, PROPERTY, "gen")
-    cfg = common.base_config(seed, PROPERTY, rnd, n_libs=1, n_data=1)
+    cfg = common.base_config(seed, PROPERTY, rnd, tier=tier, n_libs=1, n_data=1)
     lib = cfg["libraries"][0]
     lib["n"] = rnd.choice([1, 2, 3, 4, 5, 6, 7, 8, 9, 10, 11, 12, 13, 16, 17, 23, 31, 32, 33, rnd.randint(1, 60)])
     lib["duplicates"] = []
